@@ -62,6 +62,9 @@ type Frame struct {
 	RetTo ssa.Value
 	// set when this frame was entered to run a deferred call / goroutine entry
 	IsDefer bool
+	IsMemo  bool    // result goes to the caller's Memo; the caller re-executes its instruction
+	Memo    []Value // results of helper calls requested by the instruction being executed
+	MemoIdx int
 	Env     []Value
 	Visits  map[*ssa.BasicBlock]int
 	BackEdges int
@@ -72,6 +75,7 @@ func (f *Frame) clone() *Frame {
 	c.Regs = make([]Value, len(f.Regs))
 	copy(c.Regs, f.Regs)
 	c.Defers = append([]DeferRec(nil), f.Defers...)
+	c.Memo = append([]Value(nil), f.Memo...)
 	if f.Visits != nil {
 		c.Visits = make(map[*ssa.BasicBlock]int, len(f.Visits))
 		for k, v := range f.Visits {
